@@ -93,6 +93,11 @@ CHECKS = {
             "For every sentence in the bound the value of every variable and the branch taken must be equal under both models for every valuation; this decides the property by value/branch equality (re-grouping is only used to explain counterexamples).",
             "Trusted: the two precedence tables and function semantics of the models (documented facts self-test); uncertain BASIC09 behaviour is UNSPEC -> no verdict (counted in evidence).",
             "DESIGN.md §2 C01, Appendix A"),
+    "C02": ("model_checking",
+            "bounded-exhaustive enumeration of control-flow skeletons (line shapes x statement positions x ~39 control constructs x jump targets, at most 2 constructs) x input vectors x option sets, each executed by the Color BASIC and (translated) the BASIC09 reference interpreter under step horizons",
+            "For every skeleton, input vector and option set the PRINT trace, the way the program stops and the final store must agree; Color BASIC terminating while the translation exceeds 20x its step count is non-termination; an unparsable translation of a runnable source is a violation.",
+            "Trusted: the two interpreters' control-flow semantics (bottom-tested FOR with FOR-stack search, rest-of-line IF branches, nearest-IF ELSE; BASIC09 top-tested FOR, LOOP/EXITIF). Programs that raise an error in Color BASIC are outside the fragment.",
+            "DESIGN.md §2 C02"),
 }
 
 PENDING_REASON = "check not built yet in this revision (work in progress; will be claimed when its explorer exists)"
